@@ -72,6 +72,8 @@ def gen_history(rng, quick):
   for _ in range(rounds):
     k = int(rng.randint(1, n_clients + 1))
     cohorts.append(sorted(rng.choice(n_clients, size=k, replace=False).tolist()))
+  if rng.rand() < 0.08 and rounds >= 2:
+    cohorts[int(rng.randint(1, rounds))] = []      # a round with NO sampled client at all
   if rng.rand() < 0.15 and n_clients >= 3:
     # forced class: a round whose whole cohort is empty, AFTER a round that moved the server (stateful server optimizers
     # must still advance on the zero mean delta), followed by a normal round.
@@ -191,6 +193,8 @@ def run_history(ctx, fedjax, jax, jnp, h, rng):
       if v == 'perm':
         rng.shuffle(order)
       clients = [(cohort_ids[i], dsets[cohort_ids[i]], keys[i]) for i in order]
+      if v == 'perm' and rnd % 2:
+        clients = tuple(clients)        # "Sequence" of clients: list or tuple
       st_in = states[v]
       snap = snapshot(st_in)
       ksnap = snapshot(list(keys))
@@ -236,6 +240,8 @@ def run_history(ctx, fedjax, jax, jnp, h, rng):
   klass = [f"copt={h['cspec'][0]}", f"sopt={h['sspec'][0]}"]
   if all(s == 0 for s in h['sizes']):
     klass.append('all-empty-population')
+  if any(len(c) == 0 for c in h['cohorts']):
+    klass.append('round-without-clients')
   if any(all(h['sizes'][i] == 0 for i in c) for c in h['cohorts'][1:]) and any(h['sizes'][i] for i in h['cohorts'][0]):
     klass.append('empty-round-after-nonempty-round')
     if h['sspec'][0] != 'sgd':
